@@ -61,7 +61,8 @@ def environment(cid):
     debug  root logger at DEBUG (what -vv does), records captured and discarded
     refuse_delete  from the owner's `delete` on, the backend refuses - for good - to delete one chunk object (a permission
            problem at the provider): delete and clean fail, whatever they wrote before failing is scanned like everything else"""
-    return {'cache': CACHE_ENVS[cid % 4], 'debug': cid % 3 == 0, 'refuse_delete': cid % 2 == 1}
+    return {'cache': CACHE_ENVS[cid % 4], 'debug': cid % 3 == 0, 'refuse_delete': cid % 2 == 1,
+            'user_kdf': 'blake2b' if cid % 4 == 3 else 'scrypt'}
 
 
 class DebugLogging:
@@ -88,13 +89,41 @@ class DebugLogging:
             self.root.removeHandler(self.handler)
 
 
-PASSWORD_SHAPES = ['word', 'empty', 'long', 'nul', 'utf8']
+PASSWORD_SHAPES = ['word', 'empty', 'long', 'nul', 'utf8', 'b65', 'b129']
 
 
 def make_password(rng, role, shape):
     tag = rng.randbytes(6).hex()
     return {'word': f'pass-{role}-{tag}'.encode(), 'empty': b'', 'nul': b'\x00', 'long': f'pass-long-{role}-{tag} '.encode() * 40,
-            'utf8': f'p\u00e4ssw\u00f6rd-{role}-{tag}-\U0001F511'.encode('utf-8')}[shape]
+            'utf8': f'p\u00e4ssw\u00f6rd-{role}-{tag}-\U0001F511'.encode('utf-8'),
+            'b65': (f'pass65-{role}-{tag}-'.encode() * 4)[:65], 'b129': (f'pass129-{role}-{tag}-'.encode() * 8)[:129]}[shape]
+
+
+class VanishOnOpen:
+    """the file disappears at the moment it is opened for reading (it was there when the files were collected)"""
+
+    def __init__(self, path):
+        self.path, self.done = str(path), False
+
+    def __enter__(self):
+        orig, me = Path.open, self
+        self.orig = orig
+
+        def open_(self, *a, **k):
+            if not me.done and str(self) == me.path:
+                me.done = True
+                import os as _os
+                _os.unlink(me.path)
+            return orig(self, *a, **k)
+        Path.open = open_
+        return self
+
+    def __exit__(self, *exc):
+        Path.open = self.orig
+
+
+class PasswordRefused(Exception):
+    """init refused the password (the KDF cannot take it): no repository, nothing to check"""
 
 
 class RefusingBackend(MemBackend):
@@ -172,7 +201,12 @@ def _run_history(rng, scratch, cid, cipher, hashing, env):
     keyfiles = {}
     to_file = {'owner': cid % 2 == 0, 'shared': cid % 2 == 1, 'indep': cid % 3 == 0}
     owner = repolab.Client(be, password=pw['owner'], cache=cache)
-    cheap = {'encryption': {'kdf': {'name': 'scrypt', 'n': 4}}}
+    kdf = {'name': 'scrypt', 'n': 4} if env.get('user_kdf', 'scrypt') == 'scrypt' else {'name': 'blake2b'}
+    cheap = {'encryption': {'kdf': dict(kdf)}}
+
+    def refusable(u):
+        # the BLAKE2b user KDF keys the hash with the password: longer than 64 bytes cannot be used and is refused
+        return kdf['name'] == 'blake2b' and len(pw[u]) > 64
 
     def done(cmd, o, may_fail=False):
         outputs.append((cmd, o.stdout, o.stderr))
@@ -183,12 +217,21 @@ def _run_history(rng, scratch, cid, cipher, hashing, env):
 
     def keypath(u):
         return str(root / f'{u}.key') if to_file[u] else None
-    o = owner.init(repolab.settings_for(cipher, hashing=hashing), key_output_path=keypath('owner'))
+    init_settings = repolab.settings_for(cipher, hashing=hashing)
+    init_settings['encryption']['kdf'] = dict(kdf)
+    o = owner.init(init_settings, key_output_path=keypath('owner'))
+    if not o.ok and refusable('owner'):
+        raise PasswordRefused(o.detail)
     assert o.ok, o.detail
     done('init', o)
     keys = {'owner': owner.key}
     for u, shared in (('shared', True), ('indep', False)):
-        o = done('add-key', owner.add_key(pw[u], shared=shared, settings=cheap, key_output_path=keypath(u)))
+        o = owner.add_key(pw[u], shared=shared, settings=cheap, key_output_path=keypath(u))
+        if not o.ok and refusable(u) and 'ValueError' in o.detail:
+            outputs.append(('add-key refused', o.stdout, o.stderr))     # nothing was produced: nothing to seal
+            between()
+            continue
+        done('add-key', o)
         if o.ok:
             keys[u] = repolab.serialize_key(o.value.new_key)
     for u in keys:
@@ -209,6 +252,24 @@ def _run_history(rng, scratch, cid, cipher, hashing, env):
             o = done('snapshot', clients[u].snapshot(paths, note=note))
             if o.ok:
                 snapshots.append((o.value, u))
+    # a source file that vanishes between the collection of the files and its being opened (temporary files, rotated logs)
+    fleeting = root / f'fleeting-{rng.randbytes(4).hex()}'
+    fleeting.mkdir()
+    gone = fleeting / f'a-vanishing-{rng.randbytes(4).hex()}.tmp'
+    gone.write_bytes(rng.randbytes(20))                         # the smallest file is streamed first
+    stays = fleeting / f'b-staying-{rng.randbytes(4).hex()}.dat'
+    stays.write_bytes(rng.randbytes(300))
+    vanishing = {str(gone.resolve()): gone.read_bytes(), str(stays.resolve()): stays.read_bytes()}
+    note4 = f'note-delta-{rng.randbytes(5).hex()}'
+    with VanishOnOpen(gone.resolve()):
+        o = clients['owner'].snapshot([fleeting], note=note4)
+    outputs.append(('snapshot', o.stdout, o.stderr))
+    if o.ok:
+        snapshots.append((o.value, 'owner'))
+    elif 'FileNotFoundError' not in o.detail:
+        failures.append(f'snapshot of a tree with a vanishing file: {o.detail}')
+    between()
+    shutil.rmtree(fleeting, ignore_errors=True)
     # a tree in which every file is empty (.gitkeep, lock files): the chunk table of this snapshot is empty
     hollow = root / f'hollow-{rng.randbytes(4).hex()}'
     (hollow / 'sub').mkdir(parents=True)
@@ -229,7 +290,7 @@ def _run_history(rng, scratch, cid, cipher, hashing, env):
     shutil.rmtree(tree, ignore_errors=True)
     return {'cid': cid, 'cipher': cipher, 'hashing': hashing, 'log': list(be.log), 'outputs': outputs, 'keyfiles': keyfiles, 'keys': keys,
             'passwords': pw, 'to_file': to_file, 'snapshots': snapshots, 'failures': failures, 'env': env,
-            'files': [files, files2, {victim: files2[victim]}, empties], 'notes': [note1, note2, None, note3], 'before_delete': before_delete,
+            'files': [files, files2, {victim: files2[victim]}, empties, vanishing], 'notes': [note1, note2, None, note3, note4], 'before_delete': before_delete,
             'deleted': s1.value.name if s1.ok else None, 'config': before_delete['config']}
 
 
@@ -348,7 +409,7 @@ class Lift:
             if h['to_file'][u]:
                 items.append(('IKey', self.key_term(u, h['keyfiles'][u])))
         dec = json.JSONDecoder()
-        order = iter(['owner', 'shared', 'indep'])
+        order = iter([u for u in ('owner', 'shared', 'indep') if u in h['keys']])
         for cmd, out, err in h['outputs']:
             if cmd not in ('init', 'add-key'):
                 if out.strip():
@@ -403,7 +464,7 @@ class Lift:
             lines.append(f'Definition F_{u} : family := {self.family_def(u)}.')
             lines.append(f'Definition U_{u} : user := {self.user_def(u)}.')
         cmds = [f'CInit ({refreader.coq(self.atoms.atom("setting", h["config"]))}) F_owner U_owner {str(h["to_file"]["owner"]).lower()}',
-                f'CAddKey F_shared U_shared {str(h["to_file"]["shared"]).lower()}', f'CAddKey F_indep U_indep {str(h["to_file"]["indep"]).lower()}']
+                ] + [f'CAddKey F_{u} U_{u} {str(h["to_file"][u]).lower()}' for u in ('shared', 'indep') if u in h['keys']]
         tables = {}
         for v, u in h['snapshots']:
             loc, obj, parsed, _ = self.snap_terms[v.location]
@@ -654,7 +715,7 @@ def check_case(ctx, rep: Report, h, encrypted=True):
     label = f'{h["cipher"][0] if h["cipher"] else "none"}{"-" + str(h["cipher"][1]) if h["cipher"] and h["cipher"][1] else ""}' \
             f'{"/nonce " + str(h["cipher"][2]) if h["cipher"] and len(h["cipher"]) > 2 else ""}/{(h["hashing"] or {"name": "blake2b"})["name"]}'
     env = h.get('env') or environment(cid)
-    label += f' [cache: {env["cache"]}{", debug logging" if env["debug"] else ""}{", one chunk deletion refused" if env.get("refuse_delete") else ""}]'
+    label += f' [cache: {env["cache"]}{", debug logging" if env["debug"] else ""}{", one chunk deletion refused" if env.get("refuse_delete") else ""}{", blake2b user KDF" if env.get("user_kdf") == "blake2b" else ""}]'
     replay = {'cid': cid, 'cipher': h['cipher'], 'hashing': h['hashing'], 'seed': h['seed'], 'environment': env}
     rep.count('config:' + label.split(' [')[0])
     rep.count('env:cache=' + env['cache'])
@@ -678,6 +739,21 @@ def check_case(ctx, rep: Report, h, encrypted=True):
     for cipher_, times, lens in h.get('primitive_reuse', [])[:1]:
         rep.violations.append({'what': f'[{label}] one (key, nonce) pair was handed to {cipher_} {times} times during the history (plaintext lengths {lens})',
                                'signature': {'secret': 'nonce reuse', 'where': 'primitive'}, 'replay': replay})
+    # whatever init / add-key produced must be sealed under the password: an attacker's guesses must not open it
+    rr_ = refreader.RefReader(h['config'])
+    for u_, kb in sorted(h['keys'].items()):
+        real = h['passwords'][u_]
+        guesses = [g for g in (b'', b'password', b'\x00', real[:64], real[:1], real + b'x', real[:-1], h['passwords'].get('owner' if u_ != 'owner' else 'shared', b'?'))
+                   if g != real and not (env.get('user_kdf', 'scrypt') == 'scrypt' and g.rstrip(b'\x00') == real.rstrip(b'\x00'))]
+        # (scrypt = PBKDF2-HMAC-SHA256 inside: HMAC pads its key with NUL bytes, so passwords that differ only in trailing
+        #  NUL bytes are the same password for it - a property of the primitive, not a wrong guess)
+        for source in [kb] + ([h['keyfiles'][u_]] if u_ in h['keyfiles'] else []):
+            opened = [g for g in guesses if rr_.opens_with(source, g)]
+            if opened:
+                rep.violations.append({'what': f'[{label}] the key of {u_} (password of {len(real)} bytes, user KDF {env.get("user_kdf", "scrypt")}) opens with a WRONG '
+                                               f'password: {opened[0][:20]!r}{"..." if len(opened[0]) > 20 else ""} ({len(opened[0])} bytes)',
+                                       'signature': {'secret': 'key opens with a wrong password', 'where': 'key'}, 'replay': replay})
+                break
     if h.get('failures'):
         # a command of the honest history failed on the implementation: what was written has been scanned, nothing to lift
         rep.case((cid, h['seed']), nontrivial=False)
@@ -1094,6 +1170,10 @@ def run_one(ctx, rep, seed, cid, cipher, hashing):
     import random
     try:
         h = run_history(random.Random(seed), ctx.scratch, cid, cipher, hashing)
+    except PasswordRefused:
+        rep.case((cid, seed), nontrivial=False)
+        rep.count('init refused the password (too long for the BLAKE2b user KDF)')
+        return
     except Exception as e:  # a command of the honest history failed on the implementation
         rep.case((cid, seed), nontrivial=False)
         rep.disagreements.append({'what': f'the history could not be run on the implementation ({cipher}, {hashing}): {type(e).__name__}: {str(e)[:300]}',
